@@ -89,7 +89,7 @@ def compile_match_expression(compiler, expr, root, subject, clauses):
         )
 
     expr_name = asty.Name(expr, id=return_var.id, ctx=ast.Load())
-    returnable = Result(expr=expr_name, temp_variables=[expr_name, return_var])
+    returnable = __RETURNABLE__
     ret = Result() + subject
     ret += asty.Assign(
         expr, targets=[return_var], value=asty.Constant(expr, value=None)
@@ -224,6 +224,15 @@ def translate(repo):
     hm = match_function(fm, T_MATCH, RM + ":compile_match_expression")
     # which guards are compiled: every one the clause has (`guard is not None`), or only those whose model is
     # truthy (`guard`: a falsy literal such as 0, "", [] was dropped and the case matched unconditionally)
+    # is the result variable handed to Result.rename?  If it is, (setv x (match x ...)) presets x = None before the
+    # subject is read (7b4f7e5 stopped that: the form's value is then always copied out of its own variable)
+    rb = ast.unparse(hm["__RETURNABLE__"])
+    if rb == "Result(expr=expr_name)":
+        renamable = False
+    elif rb == "Result(expr=expr_name, temp_variables=[expr_name, return_var])":
+        renamable = True
+    else:
+        raise ShapeChanged(RM + ": compile_match_expression: returnable = %s" % rb)
     gt = ast.unparse(hm["__GUARD_TEST__"])
     if gt == "guard is not None":
         guard_kept = True
@@ -277,6 +286,8 @@ def translate(repo):
     o.append("Definition as_forbidden_mangled : string := %s." % q(as_wild))
     o.append("Definition or_min_alternatives : nat := %d." % mins["__OR_MIN__"])
     o.append("Definition value_min_symbols : nat := %d." % mins["__DOT_MIN__"])
+    o.append("(* whether the result variable of a match form may be renamed to an assignment target by Result.rename *)")
+    o.append("Definition result_var_renamable : bool := %s." % ("true" if renamable else "false"))
     o.append("(* whether compile_match_expression compiles a guard whose model is falsy (0, \"\", [], {}) *)")
     o.append("Definition guard_kept_when_falsy : bool := %s." % ("true" if guard_kept else "false"))
     o.append("(* whether compile_pattern mangles the keyword of a class pattern into the attribute name *)")
